@@ -8,7 +8,8 @@ META = {
     "text": "Coq theorems over the executable model of the JSONx printer, lexer, parser and encoder: every number "
             "literal, quoted string and key the printer can emit is lexed back as exactly one token covering the whole "
             "literal, and decoding the printed document yields the JSON text of the original value, for every nesting "
-            "of arrays and objects (induction on the value). Tied to the code by a translator of constants and by "
+            "of arrays and objects (induction on the value); the bytes Marshal returns are owned by the caller (origin of "
+            "every []byte result extracted from the source, heap model with caller writes). Tied to the code by a translator of constants and by "
             "differential runs of Marshal and Unmarshal (printer output, decoder output, strconv.Quote) evaluated in Coq.",
     "note": "Trusted: Coq kernel + vm_compute; translator gen/jsonx.go; harness + shim; strconv.Quote / Unquote and "
             "encoding/json are modelled and compared on every run, not verified; unicode.IsPrint and float "
@@ -28,6 +29,8 @@ def impl_oracle(c):
         return kind, "%s: %s" % (c["op"], o["crash"][:160])
     if c["op"] == "file":
         return J.file_oracle(c)
+    if c["op"] == "reuse":
+        return J.usage_oracle(c)
     if c["op"] == "gort":
         r = o.get("res")
         if r in ("marshal-mismatch", "unmarshalerr", "json-rejects") or not o.get("ok"):
@@ -64,7 +67,12 @@ def run(ck):
         ck.coqchk(["Verif.Props.C07"])
 
     cases = J.run_harness(ck, "c07", n)
-    for c in cases:
+    for k, c in enumerate(cases):
+        if c["op"] == "hold":
+            ck.coverage["results_held_across_later_cases"] = ck.coverage.get("results_held_across_later_cases", 0) + (c["obs"].get("n") or 0)
+            if not J.crash_kind(c["obs"]):
+                J.hold_oracle(ck, cases, k)
+                continue
         trivial = c["op"] == "print" and c["in"] in ("6e756c6c",)
         if c["op"] == "gort":
             o = c["obs"]
@@ -116,6 +124,11 @@ def run(ck):
              "category (sampled in the quick tier) through strconv.Quote and the printer against the model with the "
              "unicode.IsPrint table; blocks of 1024 code points (all 1088 blocks in the thorough tier, a seeded tenth "
              "plus everything below U+3000 otherwise) through strconv.Quote per code point and the real round trip as "
-             "value and as key. Trivial = the value "
+             "value and as key. Usage patterns (round 3): every integer -130..130, powers of ten and their "
+             "neighbours in every Go integer and float type, short json.Number spellings; strings and keys longer "
+             "than 4096 bytes, wide and deep containers; two to five values through Marshal one after the other "
+             "(the bytes of the first result intact after the next call, the same text twice) and from 8 goroutines "
+             "(Marshal, Sprint); Fprint into writers that fail at Write call k (for good, or once) must return an "
+             "error; WriteFile into a missing directory. Trivial = the value "
              "nil; distinct = distinct (operation, json.Marshal of the value).",
         assumptions=["values are those json.Marshal can encode", "unicode.IsPrint(0x0A) = false"])
